@@ -37,6 +37,12 @@ class Gen:
         out.append(b"]")
         return out
 
+    def required_value(self, a):
+        vals = list(a["values"] or []) + [k for k, _ in a["extValues"]]
+        if vals:
+            return [self.case(self.r.choice(vals).encode())]
+        return self.value_for_types(a["types"])
+
     def value_for_types(self, types):
         ts = [t for t in types if t in ("string", "stringlist", "number", "tag")]
         t = self.r.choice(ts)
@@ -125,7 +131,7 @@ class Gen:
                     toks += self.test(depth - 1, need)
                 toks.append(b")")
             else:
-                toks += self.value_for_types(a["types"])
+                toks += self.required_value(a)
         return toks
 
     def command(self, depth, need, prev_if):
@@ -147,7 +153,7 @@ class Gen:
             elif a["types"] == ["testlist"]:
                 toks += [b"(", *self.test(1, need), b")"]
             else:
-                toks += self.value_for_types(a["types"])
+                toks += self.required_value(a)
         if d["acceptChildren"]:
             toks.append(b"{")
             toks += self.block(depth - 1, need)
